@@ -2716,6 +2716,14 @@ impl BytecodeVM {
                 Ok(OpResult::Continue)
             }
 
+            Op::DeclareUninitialized { name } => {
+                let name = self
+                    .get_string_constant(name)
+                    .ok_or_else(|| JsError::internal_error("Invalid variable name constant"))?;
+                interp.env_define_uninitialized(name);
+                Ok(OpResult::Continue)
+            }
+
             Op::DeclareAliasVar { name, obj, mutable } => {
                 let name = self
                     .get_string_constant(name)
